@@ -163,12 +163,14 @@ CLAIMS = {
     "C15": {
         "text": "Lean theorems through the model routines (all D>=1, all resolution pairs >=1 incl. +-1 and every parity, both oddball "
                 "options): every resolution change preserves the mean of ANY real state; the Fourier interpolant reproduces every "
-                "real state at its grid points; mapping a state band-limited below both Nyquist wavenumbers to any finer or coarser "
-                "grid samples its own interpolant there (exact up- and down-sampling); up-sampling from an odd grid is exact for "
-                "every state; 1-D: there-and-back is the identity, integer refinement keeps the samples; the block copy preserves "
-                "wavenumbers and copies exactly the band; same resolution is the identity. Correspondence: exact index maps for all "
+                "real state at its grid points and returns, for every Nyquist-free state, the ANALYTIC value sum a cos(s k.x + phi) "
+                "at ANY real query point, is periodic with the domain extent for every state (periodic extension), and the "
+                "Nyquist-free hypothesis is sharp (proved counterexample); mapping a state band-limited below both Nyquist "
+                "wavenumbers to any finer or coarser grid samples its own interpolant there (exact up- and down-sampling); "
+                "up-sampling from an odd grid is exact for every state; 1-D: there-and-back is the identity, integer refinement keeps "
+                "the samples; block-copy index theorems; same resolution is the identity. Correspondence: exact index maps for all "
                 "(N_old, N_new) in range x D, map_between_resolutions and FourierInterpolator numerically. Oracle: Nyquist-free "
-                "trigonometric polynomials at arbitrary query points (periodic extension), round trips, mean.",
+                "trigonometric polynomials at arbitrary query points, round trips, mean.",
         "technique": "Lean 4 proof (DFT theory of the resampling routine + slice/index arithmetic) + exact index-map and numerical correspondence",
         "design_ref": "DESIGN.md §5 C15",
     },
@@ -221,30 +223,33 @@ CLAIMS = {
         "design_ref": "DESIGN.md §5 C07",
     },
     "C08": {
-        "text": "Lean theorems: forward and inverse shift theorem of the model transform for every D, every shift vector, every "
-                "N>=1, any stored spectrum; every linear stepper irfftn(E0step(E) rfftn u) commutes with n-D rolls for n steps and "
-                "whole rollouts on arbitrary states; reflection conjugates the spectrum of a real state and maps the stepper with "
-                "factors E to the one with conj E (all D); 2-D transposition with permuted anisotropic symbols under the Nyquist-sign "
-                "hypothesis, and a proved counterexample without it (the property's own caveat for odd-order terms on even grids); "
-                "1-D: translation equivariance of every nonlinear term of the model (conservative / non-conservative / "
-                "single-channel convection, polynomial, gradient norm, general, Cahn-Hilliard; arbitrary state, mask and scales), of "
-                "every regenerated ETDRK stage formula (orders 0-4, arbitrary coefficients), of n steps and rollouts, with the "
-                "physical-space capstone for ETDRK4 + convection; axis permutation and 1-D embedding at the level of the symbols for "
-                "every D and of the stage formulas for arbitrary mode relabellings. Not proved in Lean: nonlinear terms for D>=2 and "
-                "3-D axis permutations at the transform level (correspondence of each stepper with the model + oracle on the "
-                "implementation: integer shifts per axis, axis swaps with permuted anisotropic coefficients, reflections, embedding).",
+        "text": "Lean theorems: TRANSLATIONS, every D, every shift vector, every N>=1, arbitrary (white-noise) states: forward and "
+                "inverse n-D shift theorem of the model transform; every nonlinear model term (convection in all four option "
+                "combinations and any channel count, polynomial, any pointwise reaction incl. Gray-Scott / BZ, gradient norm, "
+                "general, Cahn-Hilliard, 2-D vorticity, 3-D rotational) is translation equivariant; with Kolmogorov injection "
+                "exactly for shifts by whole forcing periods along the forced axis and arbitrary shifts along the others; every "
+                "regenerated ETDRK stage formula (orders 0-4, arbitrary coefficient arrays), n steps and whole rollouts commute "
+                "with the n-D roll of the physical multi-channel state. REFLECTION: conjugates the spectrum of a real state; the "
+                "stepper with factors E maps to the one with conj E (all D). AXIS PERMUTATION: 2-D transposition with permuted "
+                "anisotropic symbols under the Nyquist-sign hypothesis, with a proved counterexample without it (the property's own "
+                "caveat for odd-order terms on even grids); symbol-level permutation and 1-D embedding for every D; stage formulas "
+                "under arbitrary mode relabellings. Not proved in Lean: axis permutations of the nonlinear terms and 3-D axis "
+                "permutations at the transform level (correspondence of each stepper with the model + oracle on the implementation: "
+                "shifts, axis swaps with permuted anisotropic coefficients, reflections, embedding, incl. the Wave stepper).",
         "technique": "Lean 4 proof (DFT shift theorem + equivariance of model terms and translated stage formulas) + correspondence",
         "design_ref": "DESIGN.md §5 C08",
     },
     "C09": {
-        "text": "Lean theorems: conservation-form linear operators have symbol 0 at the mean mode hence exp_term = 1 there; "
-                "every regenerated ETDRK stage formula (orders 1-4) with E(0)=Eh(0)=1 returns the mean mode unchanged whenever "
-                "the nonlinear term has zero mean-mode output, for any number of steps; a per-mode equilibrium lambda u + N(u) = 0 "
-                "is a fixed point of every regenerated stage formula with the exact phi coefficients (lambda != 0) and with any "
-                "coefficients when lambda = 0 and N(u) = 0; mean-mode behaviour of the gradient-norm term. The zero mean-mode "
-                "output of the conservative model terms and the discrete no-work identities are proved as far as "
-                "Properties/C09.lean states (the rest is observed). Correspondence: every listed stepper vs the model on "
-                "white-noise and smooth states. Oracle: mean drift, constant equilibria, <u,N(u)>=0 / enstrophy / energy on "
+        "text": "Lean theorems: conservation-form linear operators have symbol 0 at the mean mode hence exp_term = 1 there; zero "
+                "mean-mode output of the conservative convection / Cahn-Hilliard / zero-fixed gradient-norm terms (all D, all "
+                "inputs), of the non-conservative 1-D form on dealiased states and of the 2-D vorticity term for EVERY spectrum; "
+                "hence n steps of every regenerated ETDRK order keep the mean; a per-mode or whole-spectrum equilibrium "
+                "lambda u + N(u) = 0 is a fixed point of every regenerated stage formula with the exact phi coefficients; discrete "
+                "no-work identities on dealiased states through the model pipeline: Burgers <u, N(u)> = 0 (1-D), 2-D vorticity form "
+                "enstrophy <w, N(w)> = 0 and energy <psi, N(w)> = 0, 3-D rotational form <u, P(u x w)> = 0 for every velocity that "
+                "is divergence-free on the retained modes (in particular after Leray projection), with the underlying triad "
+                "identities for any truncated spectrum. Correspondence: every listed stepper vs the model on white-noise and "
+                "smooth states. Oracle: mean drift, constant equilibria of the documented equations, no-work identities on "
                 "band-limited states.",
         "technique": "Lean 4 proof (mean-mode algebra of translated stage formulas + model terms) + correspondence",
         "design_ref": "DESIGN.md §5 C09",
